@@ -60,6 +60,7 @@ class FileScanHelper:
         self.__show_stack_trace = show_stack_trace
         self.__handle_error = handle_error
         self.__continue_on_error = False
+        self.__fix_scratch_directory: Optional[str] = None
 
     # pylint: enable=too-many-arguments
 
@@ -481,26 +482,57 @@ class FileScanHelper:
         did_anything_get_fixed = False
         keep_processing = True
 
-        while keep_processing:
-            (
-                keep_processing,
-                did_anything_get_fixed_this_time,
-                minimum_fix_level,
-            ) = self.__process_file_fix_next_level(
-                plugins_by_fix_level,
-                minimum_fix_level,
-                fixes_by_id,
-                next_file,
-                next_file_name,
-                fix_debug,
-                fix_file_debug,
-                fix_nolog_rescan,
-            )
-            did_anything_get_fixed = (
-                did_anything_get_fixed or did_anything_get_fixed_this_time
-            )
+        # Every pass works on a private copy of the file, and every temporary file lives in
+        # a scratch directory that is removed however this function is left.  The original
+        # file is only replaced once all passes are complete, and then in a single step, so
+        # it is never seen truncated, half-written or fixed for only some of the fix levels.
+        with tempfile.TemporaryDirectory() as scratch_directory:
+            self.__fix_scratch_directory = scratch_directory
+            try:
+                working_file = os.path.join(scratch_directory, "working-copy")
+                shutil.copyfile(next_file, working_file)
+                while keep_processing:
+                    (
+                        keep_processing,
+                        did_anything_get_fixed_this_time,
+                        minimum_fix_level,
+                    ) = self.__process_file_fix_next_level(
+                        plugins_by_fix_level,
+                        minimum_fix_level,
+                        fixes_by_id,
+                        working_file,
+                        next_file_name,
+                        fix_debug,
+                        fix_file_debug,
+                        fix_nolog_rescan,
+                    )
+                    did_anything_get_fixed = (
+                        did_anything_get_fixed or did_anything_get_fixed_this_time
+                    )
+                if did_anything_get_fixed:
+                    FileScanHelper.__replace_file(working_file, next_file)
+            finally:
+                self.__fix_scratch_directory = None
 
         return did_anything_get_fixed
+
+    @staticmethod
+    def __replace_file(source_file: str, destination_file: str) -> None:
+        """
+        Replace the destination file with the contents of the source file in one step.
+        """
+        destination_directory = os.path.dirname(os.path.abspath(destination_file))
+        with tempfile.NamedTemporaryFile(
+            dir=destination_directory, delete=False
+        ) as replacement_file:
+            replacement_file_name = replacement_file.name
+        try:
+            shutil.copyfile(source_file, replacement_file_name)
+            shutil.copymode(destination_file, replacement_file_name)
+            os.replace(replacement_file_name, destination_file)
+        finally:
+            if os.path.exists(replacement_file_name):
+                os.remove(replacement_file_name)
 
     # pylint: enable=too-many-arguments, too-many-locals
 
@@ -516,7 +548,9 @@ class FileScanHelper:
         collect_list: List[str],
     ) -> Tuple[List[FixLineRecord], str, Set[str]]:
         source_provider = FileSourceProvider(next_file)
-        with tempfile.NamedTemporaryFile() as temp_output:
+        with tempfile.NamedTemporaryFile(
+            dir=self.__fix_scratch_directory
+        ) as temp_output:
             temporary_file_name = temp_output.name
         with open(temporary_file_name, "wt", encoding="utf-8") as source_file:
             POGGER.info("Scanning before line-by-line fixes.")
@@ -787,7 +821,9 @@ class FileScanHelper:
 
         if fix_debug:
             print(f"MARKDOWN:{ParserHelper.make_value_visible(markdown_from_tokens)}")
-        with tempfile.NamedTemporaryFile() as temp_output:
+        with tempfile.NamedTemporaryFile(
+            dir=self.__fix_scratch_directory
+        ) as temp_output:
             temporary_file_name = temp_output.name
         with open(temporary_file_name, "wt", encoding="utf-8") as source_file:
             source_file.write(markdown_from_tokens)
